@@ -59,6 +59,10 @@ CLAIMS = {
          "DESIGN.md 5 C10",
          "Structural necessary conditions: every journal instruction files under scope.Contract.Address() (the same value it reads storage with) into the interpreter's own recorder; the recorder stamps CurrentCallIndex() = index of the call-tree cursor at that moment; the index reaches the per-call map key unchanged; the delegation semantics of Contract.Address are the reference's.",
          "collapse of immediate repeats (value comparison) and all history-dependent clauses are not decided; cursor correctness is C07. " + TRUST),
+ "C08": ("CFG pairing rule (SaveCall before every return, one deferred ExitCall); resolved-AST provenance of the SaveCall/ExitCall arguments; SSA borrowed-reference retention analysis (parameters, fields, call chains) over all fork packages",
+         "DESIGN.md 5 C08",
+         "Structural necessary conditions: every attempt is recorded on entry before any refusal check, with arguments built from exactly this call's parameters, and closed with the function's own results; no reference that may alias live interpreter memory or the operand stack is stored into recorder-owned memory without a copy, along any static call chain.",
+         "does not decide sibling order beyond append-on-entry, nor equality of recorded values with an independent log; return data of a finished frame is taken as owned by the caller. " + TRUST),
 }
 
 NA = {}
